@@ -126,7 +126,72 @@ def o_qam(case):
     return None
 
 
+def _layouts(a):
+    out = [('C', np.ascontiguousarray(a))]
+    if a.ndim >= 2:
+        out.append(('F', np.asfortranarray(a)))
+        out.append(('T', np.ascontiguousarray(a.T).T))
+        out.append(('reversed', np.ascontiguousarray(a[..., ::-1])[..., ::-1]))
+    big = np.zeros(tuple(2 * n for n in a.shape), dtype=a.dtype)
+    big[tuple(slice(None, None, 2) for _ in a.shape)] = a
+    out.append(('strided', big[tuple(slice(None, None, 2) for _ in a.shape)]))
+    return out
+
+
+def o_conv_arrays(case):
+    """R1/R2/R3: conversions on arrays of every integer dtype, memory layout and shape (incl. empty);
+    the caller's array is not modified and the result is a new array"""
+    conv, _, _ = _impl()
+    dt = np.dtype(case['dtype'])
+    vals = np.array(case['values'], dtype=np.uint64).astype(dt).reshape(case['shape'])
+    exp_g = np.array([int(v) ^ (int(v) >> 1) for v in vals.ravel().tolist()], dtype=object).reshape(vals.shape)
+    for name, v in _layouts(vals):
+        keep = v.copy()
+        g = conv.binary2gray(v)
+        if np.shape(g) != v.shape or [int(t) for t in np.asarray(g).ravel()] != [int(t) for t in exp_g.ravel()]:
+            return 'arrays:binary2gray:%s' % name, 'dtype %s shape %s' % (dt, v.shape)
+        b = conv.gray2binary(g)
+        if np.shape(b) != v.shape or [int(t) for t in np.asarray(b).ravel()] != [int(t) for t in keep.ravel()]:
+            return 'arrays:roundtrip:%s' % name, 'dtype %s shape %s' % (dt, v.shape)
+        if not np.array_equal(v, keep):
+            return 'arrays:input-modified:binary2gray', str(dt)
+        gk = np.array(g, copy=True)
+        b2 = conv.gray2binary(g)
+        if not np.array_equal(np.asarray(g), gk):
+            return 'arrays:input-modified:gray2binary', 'gray2binary overwrote its argument (dtype %s)' % dt
+        if [int(t) for t in np.asarray(b2).ravel()] != [int(t) for t in keep.ravel()]:
+            return 'arrays:second-decode-differs', str(dt)
+        if [int(t) for t in np.asarray(conv.binary2gray(conv.gray2binary(g))).ravel()] != [int(t) for t in gk.ravel()]:
+            return 'arrays:gray-binary-gray', str(dt)
+    return None
+
+
+def o_biterrors_mixed(case):
+    """R1: Hamming distance between index arrays of different integer dtypes, both argument orders"""
+    _, misc, _ = _impl()
+    a = np.array(case['a'], dtype=np.uint64).astype(case['da'])
+    b = np.array(case['b'], dtype=np.uint64).astype(case['db'])
+    exp = sum(popcount(int(x) ^ int(y)) for x, y in zip(a.tolist(), b.tolist()))
+    pair = '%s/%s' % (np.dtype(case['da']).kind, np.dtype(case['db']).kind)
+    for first, second, tag in ((a, b, 'ab'), (b, a, 'ba')):
+        ka, kb = first.copy(), second.copy()
+        try:
+            got = int(misc.count_bit_errors(first, second))
+        except TypeError as e:
+            if {str(first.dtype), str(second.dtype)} >= {'uint64'} and any(np.dtype(d).kind == 'i' for d in (first.dtype, second.dtype)):
+                return 'bit-errors:uint64-with-signed', repr(e)[:120]
+            return 'bit-errors:raises:' + pair, repr(e)[:120]
+        if got != exp:
+            return 'bit-errors-not-hamming:mixed-dtypes', '%s %s vs %s %s (%s): got %d expected %d' % (
+                first.dtype, first.tolist()[:4], second.dtype, second.tolist()[:4], tag, got, exp)
+        if not (np.array_equal(first, ka) and np.array_equal(second, kb)):
+            return 'bit-errors:input-modified', tag
+    return None
+
+
 ORACLES = {
+    'conversions.arrays': o_conv_arrays,
+    'count_bit_errors.mixed': o_biterrors_mixed,
     'gray2binary': o_roundtrip,
     'binary2gray.consecutive': o_consecutive,
     'count_bit_errors': o_biterrors,
@@ -260,6 +325,26 @@ def oracles(ctx, n_small, n_rand, psk_max, qam_max):
         a = [ctx.rng.below(1 << bits) for _ in range(ln)]
         b = [ctx.rng.below(1 << bits) for _ in range(ln)]
         run_oracle(ctx, 'count_bit_errors', {'a': a, 'b': b})
+    dts = ['uint8', 'int8', 'uint16', 'int16', 'uint32', 'int32', 'uint64', 'int64']
+    for dt in dts:
+        bits = np.dtype(dt).itemsize * 8 - (1 if np.dtype(dt).kind == 'i' else 0)
+        bits = min(bits, 62)
+        for shape in ([12], [3, 4], [2, 3, 2], [0], [0, 3]):
+            n = int(np.prod(shape))
+            vals = [ctx.rng.below(1 << ctx.rng.randint(1, bits)) for _ in range(n)]
+            if n:
+                vals[0] = (1 << bits) - 1
+            run_oracle(ctx, 'conversions.arrays', {'dtype': dt, 'shape': shape, 'values': vals},
+                       key=('arr', dt, tuple(shape)))
+    for da in dts:
+        for db in dts:
+            ba = min(np.dtype(da).itemsize * 8 - (1 if np.dtype(da).kind == 'i' else 0), 62)
+            bb = min(np.dtype(db).itemsize * 8 - (1 if np.dtype(db).kind == 'i' else 0), 62)
+            n = ctx.rng.randint(1, 6)
+            a = [ctx.rng.below(1 << ba) for _ in range(n)]
+            b = [ctx.rng.below(1 << bb) for _ in range(n)]
+            a[0], b[0] = (1 << ba) - 1, (1 << bb) - 1
+            run_oracle(ctx, 'count_bit_errors.mixed', {'a': a, 'b': b, 'da': da, 'db': db}, key=('mixed', da, db))
     M = 2
     while M <= psk_max:
         for _ in range(2 if M <= 256 else 1):
